@@ -162,7 +162,7 @@ Alphabet ==
          \cup {[op |-> "update", q |-> q, m |-> m, u |-> u, fail |-> 0, via |-> "handle"] :
                 q \in {T("noop", 0), Tg(1, "exists", 0)}, m \in {1, 2}, u \in {[U0 EXCEPT !.mk = 1, !.mv = 2], [U0 EXCEPT !.fdk = 1, !.fdv = <<1, M>>]}}
          \cup {[op |-> "update_all", m |-> m, u |-> [U0 EXCEPT !.tgk = 1, !.tgv = <<2, M>>], fail |-> 0, via |-> "handle"] : m \in {1, 2}}
-         \cup {[op |-> o, m |-> m, via |-> "handle"] : o \in {"get_tag_keys", "get_field_keys", "get_timestamps", "len"}, m \in {1, 2}}
+         \cup {[op |-> o, m |-> m, via |-> "handle"] : o \in {"get_tag_keys", "get_field_keys", "get_timestamps", "len", "repr"}, m \in {1, 2}}
          \cup {[op |-> "count", q |-> T("noop", 0), m |-> m, via |-> "handle"] : m \in {1, 2, 4}}
     [] Alpha = "fail" ->      \* C11: every raising call, then continuations
          InsertOps({P1, P3, P4}, {N})
